@@ -473,10 +473,15 @@ def realise(form: str, arr: np.ndarray) -> Any:
 
 
 # ------------------------------------------------------------------------------------------ finite spaces
+def rlen(r: range) -> int:
+    """len() of a step-1 range without the C ssize_t limit."""
+    return max(0, r.stop - r.start)
+
+
 def product_size(ranges: List[range]) -> int:
     n = 1
     for r in ranges:
-        n *= len(r)
+        n *= rlen(r)
     return n
 
 
@@ -498,7 +503,7 @@ def enumerate_ranges(ranges: List[range], cap: int) -> Tuple[Iterator[Tuple[int,
         highs = tuple(r[-1] for r in ranges)
         for corner in (lows, highs):
             for i, r in enumerate(ranges):
-                vals = list(r) if len(r) <= 128 else list(r[:64]) + list(r[-64:])
+                vals = list(r) if rlen(r) <= 128 else list(r[:64]) + list(r[-64:])
                 for x in vals:
                     t = corner[:i] + (x,) + corner[i + 1:]
                     if t not in seen:
